@@ -7,8 +7,12 @@ import (
 	"syscall"
 )
 
+// SIGHUP (the terminal went away) and SIGPIPE (the reader of the output went away, as in "csvq ... | head")
+// end a run as well: the transaction has to be rolled back and its locks released.
 var Signals = []os.Signal{
 	syscall.SIGINT,
 	syscall.SIGQUIT,
 	syscall.SIGTERM,
+	syscall.SIGHUP,
+	syscall.SIGPIPE,
 }
